@@ -166,6 +166,24 @@ structure Blend where
   source : Nat := 0
   deriving Repr, Inhabited
 
+/-- one target of a patch: position in the frame, then (mode, alpha channel, clamp) for the colour
+channels and for every extra channel -/
+structure PatchTgt where
+  x : Int := 0
+  y : Int := 0
+  blend : List (Nat × Nat × Bool) := []
+  deriving Repr, Inhabited
+
+/-- a rectangle of the frame in reference slot `ref` and where it goes -/
+structure PatchSpec where
+  ref : Nat := 0
+  x0 : Nat := 0
+  y0 : Nat := 0
+  w : Nat := 1
+  h : Nat := 1
+  targets : List PatchTgt := []
+  deriving Repr, Inhabited
+
 structure FrameHdr where
   ty : Nat := 0            -- 0 regular, 2 reference only, 3 skip progressive
   upsampling : Nat := 1
@@ -188,7 +206,32 @@ structure FrameHdr where
   gab : Bool := false
   epfIters : Nat := 0
   epfSigmaF16 : Nat := 0x3c00
+  /-- patch dictionary (frame flag `PATCHES`), coded at the start of LfGlobal -/
+  patches : List PatchSpec := []
   deriving Repr, Inhabited
+
+/-- the patch dictionary as entropy-coder items over its 10 contexts (`Patches::parse`,
+jxl-frame/src/data/patch.rs): count (0); per patch ref (1), x0 y0 (3), w-1 h-1 (2), targets-1 (7);
+per target the position (4, later ones as packed deltas, 6), then per channel group the mode (5),
+the alpha channel (8, only for modes >= 4 with two or more alpha channels) and clamp (9, modes >= 3) -/
+def patchItems (numAlpha : Nat) (ps : List PatchSpec) : List Item :=
+  .lit 0 ps.length :: ps.flatMap fun p =>
+    [.lit 1 p.ref, .lit 3 p.x0, .lit 3 p.y0, .lit 2 (p.w - 1), .lit 2 (p.h - 1), .lit 7 (p.targets.length - 1)] ++
+    (p.targets.zipIdx.flatMap fun (t, i) =>
+      let pos : List Item :=
+        if i == 0 then [.lit 4 t.x.toNat, .lit 4 t.y.toNat]
+        else
+          let prev := p.targets.getD (i - 1) default
+          [.lit 6 (packSigned (t.x - prev.x)), .lit 6 (packSigned (t.y - prev.y))]
+      pos ++ t.blend.flatMap fun (mode, alpha, clamp) =>
+        [Item.lit 5 mode] ++ (if mode ≥ 4 ∧ numAlpha ≥ 2 then [Item.lit 8 alpha] else []) ++
+        (if mode ≥ 3 then [Item.lit 9 (if clamp then 1 else 0)] else []))
+
+/-- the coded dictionary: `Decoder::parse(10)` header and the items, prefix coded -/
+def patchBits (numAlpha : Nat) (ps : List PatchSpec) : List Bool :=
+  let items := patchItems numAlpha ps
+  let plan := (autoPlan .prefix 10).resolve items
+  (encodeHeader plan ++ encodeItems plan items)
 
 def cropDist : List Dist := [.bits 0 8, .bits 256 11, .bits 2304 14, .bits 18688 30]
 
@@ -213,7 +256,7 @@ def writeFrameHeader (img : ImgHdr) (f : FrameHdr) : BW :=
   let w := w.bool false                   -- all_default
   let w := w.u 2 f.ty
   let w := w.bool true                    -- encoding = Modular
-  let w := w.u64 0                        -- flags
+  let w := w.u64 (if f.patches.isEmpty then 0 else 2)   -- flags: PATCHES = 2
   let w := w.bool false                   -- do_ycbcr (xyb_encoded is false)
   let w := w.u32 upsDist f.upsampling
   let w := (List.range img.ecs.length).foldl (fun w i => w.u32 upsDist (f.ecUpsampling.getD i 1)) w
